@@ -48,7 +48,8 @@ def run(pid, tier, seed, replay=None):
             for _ in range(rng.randint(1, 4)):
                 t = cd.mutate_text(rng, t)
             if rng.random() < 0.2:
-                t += rng.choice(["'", "/*", "/", "TERM x=99999999999999999999", "a : # n 99999999999 ()", "'a", "\x80 : 'a' ;", "x : '\xff' ;"])
+                t += rng.choice(["'", "/*", "/", "TERM x=99999999999999999999", "a : # n 99999999999 ()", "'a", "\x80 : 'a' ;", "x : '\xff' ;",
+                                 "TERM y=2147483648;", "TERM y=2147483649", "b : # 2147483648 ;", "b : # n 2147483649 (0)", "TERM y=2147483647;"])
         add('text', {'text': t[:200]}, ['NEW 0', 'SET 0 4 %d' % rng.choice([0, 1]), 'DESC 0 %d %s' % (rng.choice([0, 1]), hx(t)), 'ERR 0',
                                         'PARSE 0 0 2 %d %d' % (rng.randrange(0, 300), rng.randrange(0, 300)), 'FREEG 0', 'FREET 0 0'])
     # 2. very long names at every message site (defect injections with long names)
@@ -148,6 +149,21 @@ def run(pid, tier, seed, replay=None):
             L.append('WALK %d' % k)
         L += ['FREEG 0'] + ['WALK %d' % (len(ws) - 1)] + ['FREET %d 1' % k for k in range(len(ws))]
         add('reparse', {'grammar': yvlib.grammar_text(g.as_dict())[:300], 'inputs': [' '.join(w) for w in ws]}, L)
+    # 6. a good definition, a rejected re-definition (every kind of defect), then parses
+    for _ in range(150 if quick else 2000):
+        g = gen.rand_wf_grammar(rng, False, max_nt=3, max_t=3, max_rhs=3, p_anode=0.6)
+        if g is None:
+            continue
+        w = gen.rand_sentence(rng, g, maxlen=6) or []
+        terms, rules = crg.inject(rng, g.terms, g.rules, rng.randint(4, 16))
+        bad = {'terms': terms, 'rules': rules}
+        tok = gen.codes_of(g, w)
+        L = ['NEW 0', 'SET 0 0 %d' % rng.choice([0, 1, 2])] + yvlib.script_read(0, g.as_dict(), 0) + ['PARSE 0 0 %d %s' % (len(tok), ' '.join(map(str, tok)))]
+        L += yvlib.script_read(0, bad, rng.choice([0, 1])) + ['ERR 0', 'PARSE 0 0 %d %s' % (len(tok), ' '.join(map(str, tok))), 'ERR 0']
+        if rng.random() < 0.5:
+            L += yvlib.script_read(0, g.as_dict(), 0) + ['PARSE 0 0 %d %s' % (len(tok), ' '.join(map(str, tok)))]
+        L += ['FREEG 0', 'FREET 0 1', 'FREET 1 1', 'FREET 2 1']
+        add('redefine', {'grammar': yvlib.grammar_text(g.as_dict())[:200], 'bad': yvlib.grammar_text(bad)[:200]}, L)
     res = yvlib.run_driver(exe, '\n'.join(c[2] for c in cases), timeout_case=10 if quick else 30, leaks=False)
     stats = {'cases': len(cases), 'by_kind': {}, 'nonzero_codes': {}, 'max_message_length': 0}
     for (kind, info, sc), r in zip(cases, res):
